@@ -1578,6 +1578,13 @@ def task_sweep(ctx, shard, nshards):
                     work.append(([spec, mode, [["end", side, k]], True], True))
         for u in (0.0, 0.02, 0.97, 1.0):
             work.append(([spec, "E", [["log", u]], True], False))
+        # one LONG scan: every node and every midpoint in a single vector (2n-1 points, more than the table has
+        # rows), in a stride-permuted, non-monotone order - two detector banks concatenated, a shuffled scan
+        long_pts = [["node", i, 0] for i in range(n)] + [["mid", i, 0.5] for i in range(n - 1)]
+        stride = 7 if len(long_pts) % 7 else 11
+        long_pts = [long_pts[(k * stride) % len(long_pts)] for k in range(len(long_pts))]
+        work.append(([spec, "E", long_pts, False], False))
+        work.append(([spec, "W", long_pts, False], False))
         for value, strict in work:
             ctx.check(lambda c, v: check_factors(c, v["value"], v["strict_ends"]),
                       {"kind": "factors", "value": value, "strict_ends": strict})
